@@ -188,6 +188,17 @@ class FieldData:
         (self.__class__.STORAGE_KEY == "name" and \
         fieldname == self.__class__.NAME_FIELD):
          renaming_connected = True
+         if self.__class__.STORAGE_KEY != "name":
+           # (e.g. the external sequence of a fragment: the line is
+           # registered under the value, which is read when the line is
+           # registered again; whatever the validation level, a value which
+           # cannot be read is refused before the line is unregistered)
+           if value is None or gfapy.is_placeholder(value):
+             raise gfapy.FormatError(
+               "Line: {}\n".format(str(self))+
+               "The field '{}' cannot be removed".format(fieldname))
+           gfapy.Field._validate_gfa_field(value,
+               self._field_datatype(fieldname), fieldname)
          if self.__class__.STORAGE_KEY == "name":
            # groups refer to their items by name
            # (except paths, which do not refer to links by name)
